@@ -153,6 +153,11 @@ func (z *ZodStruct[T, R]) Parse(input any, ctx ...*core.ParseContext) (R, error)
 		if structPtr == nil {
 			return zero, nil
 		}
+		// A pointer schema hands back the pointer the engine returned (the caller's own
+		// when the caller passed one) instead of the address of a copy.
+		if r, ok := any(structPtr).(R); ok {
+			return r, nil
+		}
 		return convertToStructConstraintType[T, R](*structPtr), nil
 	}
 
